@@ -1611,7 +1611,14 @@ impl Linearizer {
     /// * `Err(LinearizationError)` - If linearization fails
     pub fn linearize(model: Model) -> Result<LinearModel, LinearizationError> {
         let (objective, constraints, mut domain) = model.into_components();
-        let bounds = BoundsAnalyzer::analyze(&domain, &constraints);
+        // bound inference has to see the constraints the way the lowering sees
+        // them (flattened and simplified), otherwise a constant spelling such
+        // as `-2 * x` or `(1 + 1) * x` hides an affine row from it
+        let normalized_constraints = constraints
+            .iter()
+            .map(normalized_for_bounds)
+            .collect::<Vec<_>>();
+        let bounds = BoundsAnalyzer::analyze(&domain, &normalized_constraints);
         bounds.apply_to_domain(&mut domain);
         let mut context = Linearizer::new_from_with_bounds(constraints, domain, bounds);
         context.enforce_derived_boolean_bounds()?;
@@ -1715,6 +1722,19 @@ impl Linearizer {
             domain,
         ))
     }
+}
+
+fn normalized_for_bounds(constraint: &Constraint) -> Constraint {
+    let lhs = constraint.lhs().clone().flatten().simplify();
+    if constraint.is_logic_assertion() {
+        return Constraint::new_logic_assertion(lhs, constraint.name().to_string());
+    }
+    Constraint::new(
+        lhs,
+        constraint.constraint_type(),
+        constraint.rhs().clone().flatten().simplify(),
+        constraint.name().to_string(),
+    )
 }
 
 fn extract_coeffs(exp: &IndexMap<String, f64>, vars: &IndexMap<String, usize>) -> Vec<f64> {
